@@ -218,6 +218,29 @@ def c15_cases(workdir, quick=True):
                                 "run": 1, "seq": n, "t": 0})
                 finally:
                     s.close()
+    # the store fails transiently exactly when the run's TERMINAL EVENT is recorded (append_event has no retry): whatever
+    # that does to the stream, the handler row must still say how the run ended
+    for (label, prog, expect, how) in (("result", sc.pipeline(timeout=50), "completed", None),
+                                       ("step_failure", sc.pipeline(fail_until=99, timeout=50), "failed", None),
+                                       ("cancel", sc.pipeline(timeout=50), "cancelled", "cancel")):
+        db = os.path.join(str(workdir), "c15_evfault_%s.db" % label)
+        s = sv.ServerSystem(prog, db_path=db, idle_timeout=1000.0, backoff=(0.5, 3.0))
+        try:
+            s.event_faults = 1
+            s.launch()
+            s.start_handler("h1")
+            if how == "cancel":
+                s.release(s.rig.open_gates()[0])
+                s.cancel("h1")
+            s.run_to_end(40000)
+            writes = [{"status": r["status"], "ok": bool(r["ok"])} for r in s.trace if r["e"] == "status_write"]
+            row = s.handler_row("h1")
+            out.append({"e": "case", "label": label + "/terminal_event_write_fault", "expect": expect, "faults": 0, "store": "sqlite",
+                        "status": row["status"], "has_result": row["has_result"], "result": row["result"],
+                        "has_error": row["error"] != "", "run_ended": s.live_loops("h1") == 0, "writes": writes,
+                        "run": 1, "seq": 980, "t": 0})
+        finally:
+            s.close()
     # the FIRST write of the handler row fails transiently: start_workflow sits in its back-off while whatever has already
     # been scheduled runs; the row must still end up matching the run's outcome
     for (label, prog, expect) in (("result", sc.pipeline(timeout=50), "completed"),
